@@ -26,7 +26,7 @@ Definition RP : iface := {|
   handle_response := fun i _ =>
     let '(i', o) := pop i in
     (i', if o_ok o then ROk (match o_next o with Some e => Some (e, o_body o) | None => None end) (o_reset o)
-         else RErr);
+         else RErr (o_reset o));
   handle_trigger := fun i _ =>
     let '(i', o) := pop i in (i', match o_next o with Some e => Some (e, o_body o) | None => None end);
   gen_dpd := fun i => let '(i', o) := pop i in (i', (match o_next o with Some e => e | None => -1 end, o_body o));
